@@ -89,6 +89,51 @@ def run_batch(enums, consts, prefixes, unpref, passes=False, comments=(), aliase
     return eobs, kobs
 
 
+def registered_enum_clauses(ck, rng, n):
+    """enumerations and flags types that are registered with the type system: the runtime dump knows their members by nick,
+    hand-written value name and value as a C int; the header knows the identifier and the exact value.  The GIR keeps identifier
+    and value of the header (1u << 31 is 2147483648, not -2147483648), named by the nick"""
+    import xml.etree.ElementTree as ET
+    import scanner as S
+    WORDS2 = ['none', 'keep', 'above', 'high', 'bit', 'all', 'mask', 'x2', 'fast', 'path']
+    for i in range(n):
+        flags = rng.random() < 0.5
+        tn = 'FooWin%s' % ('Flags' if flags else 'Mode')
+        up = 'FOO_WIN_%s_' % ('FLAGS' if flags else 'MODE')
+        members, used = [], set()
+        for j in range(rng.randint(2, 5)):
+            ws = [rng.choice(WORDS2) for _ in range(rng.choice([1, 2, 2, 3]))]
+            ws[0] += str(j)         # no word shared by all members beyond the type's own (glib-mkenums derives the nicks the same way)
+            if '_'.join(ws) in used:
+                continue
+            used.add('_'.join(ws))
+            v = rng.choice([j, 1 << j, 2147483648, 4294967295, 3000000000, -1 if not flags else 7, 2147483647])
+            members.append((up + '_'.join(ws).upper(), v, '-'.join(ws)))
+        gt = 'foo_win_%s_get_type' % ('flags' if flags else 'mode')
+        dm = []
+        for ident, v, nick in members:
+            iv = v - (1 << 32) if v >= (1 << 31) else v        # what a GEnumValue (gint) holds
+            vname = ident if rng.random() < 0.7 else rng.choice(['Keep above others', 'legacy-name', ident.lower()])
+            dm.append('<member name="%s" nick="%s" value="%d"/>' % (vname, nick, iv))
+        dump = '<?xml version="1.0"?><dump><%s name="%s" get-type="%s">%s</%s></dump>' % ('flags' if flags else 'enum', tn, gt, ''.join(dm),
+                                                                                           'flags' if flags else 'enum')
+        syms = [S.enum_typedef(tn, [(ident, v, False) for ident, v, _ in members], bitfield=flags, line=10), S.func(gt, S.td('GType'), [], line=30)]
+        case = dict(header='typedef enum { %s } %s;' % (', '.join('%s = %d' % (a, b) for a, b, _ in members), tn), dump=dump)
+        try:
+            r = S.run(syms, includes=['GLib', 'GObject'], dump=ET.ElementTree(ET.fromstring(dump)), warnings=False)
+        except (Exception, SystemExit) as e:      # noqa
+            ck.failing_input('the scanner fails on a registered enumeration: %r' % (e,), case)
+            continue
+        ns = S.gir_ns(r.root)
+        el = next((x for x in ns if x.get(S.CNS + 'type') == tn), None)
+        ck.count_case(dict(type=tn, members=[m_[0] for m_ in members]), kind='registered-enum')
+        want = [(nick.replace('-', '_'), str(v), ident) for ident, v, nick in members]
+        got = None if el is None else [(m_.get('name'), m_.get('value'), m_.get(S.CNS + 'identifier')) for m_ in el.findall(S.CORE + 'member')]
+        if el is None or el.tag != S.CORE + ('bitfield' if flags else 'enumeration') or got != want:
+            ck.failing_input('the members of a registered enumeration do not carry the identifiers and values of the header', case,
+                             detail=dict(expected=want, got=got, element=None if el is None else el.tag.replace(S.CORE, '')))
+
+
 def cmember(m):
     return '{| m_ident := %s; m_value := (%d)%%Z; m_private := %s |}' % (cstr(m[0]), m[1], cbool(m[2]))
 
@@ -102,6 +147,7 @@ def main(tier, seed):
     rng = random.Random(seed)
     nb = 40 if tier == 'quick' else 600
     ecases, kcases = [], []
+    registered_enum_clauses(ck, rng, 25 if tier == 'quick' else 300)
     for b in range(nb):
         prefixes = rng.choice([['foo'], ['foo'], ['foo', 'bar'], ['foo_'], ['fo', 'foo']])
         unpref = rng.random() < 0.15
